@@ -355,3 +355,114 @@ func SelfTestSeeded(prop, repo, verif string) *SelfTestResult {
 	}
 	return res
 }
+
+// SelfTestBenign re-applies, through the overlay, every stored behaviour-preserving
+// refactoring (/verif/benign/<set>-<i>/patch.diff, produced by independent
+// sub-agents) and requires that the property's check reports nothing on it that it
+// does not report on the tree itself (baseKeys): the never-a-false-alarm side of
+// the self-test.
+func SelfTestBenign(prop, repo, verif string, baseKeys map[string]bool) *SelfTestResult {
+	res := &SelfTestResult{}
+	dirs, _ := filepath.Glob(filepath.Join(verif, "benign", "*"))
+	sort.Strings(dirs)
+	var cases []seededCase
+	for _, d := range dirs {
+		pb, err := os.ReadFile(filepath.Join(d, "patch.diff"))
+		if err != nil {
+			continue
+		}
+		c := seededCase{ID: filepath.Base(d), Files: map[string]string{}}
+		for file, hs := range parseUnified(string(pb)) {
+			src, err := os.ReadFile(filepath.Join(repo, file))
+			if err != nil {
+				c.Skip = "skipped: " + err.Error()
+				break
+			}
+			patched, ok := applyHunks(string(src), hs)
+			if !ok {
+				c.Skip = "skipped: the stored patch no longer applies to " + file
+				break
+			}
+			c.Files[file] = patched
+		}
+		cases = append(cases, c)
+	}
+	if len(cases) == 0 {
+		return res
+	}
+	tmp, err := os.MkdirTemp("", "yv-benign-")
+	if err != nil {
+		res.Errors = append(res.Errors, "SELFTEST-FAIL cannot create temp dir: "+err.Error())
+		return res
+	}
+	defer os.RemoveAll(tmp)
+	rows := make([]map[string]string, len(cases))
+	sem := make(chan struct{}, 5)
+	var wg sync.WaitGroup
+	for i, c := range cases {
+		wg.Add(1)
+		go func(i int, c seededCase) {
+			defer wg.Done()
+			sem <- struct{}{}
+			defer func() { <-sem }()
+			row := map[string]string{"variant": "benign/" + c.ID, "expect": "silent"}
+			rows[i] = row
+			if c.Skip != "" {
+				row["result"] = c.Skip
+				return
+			}
+			args := []string{"check", "-p", prop, "-tier", "quick", "-repo", repo, "-evidence", filepath.Join(tmp, fmt.Sprintf("ev%d", i)), "-noselftest"}
+			j := 0
+			for file, content := range c.Files {
+				mf := filepath.Join(tmp, fmt.Sprintf("b%d_%d.go", i, j))
+				j++
+				if err := os.WriteFile(mf, []byte(content), 0o644); err != nil {
+					row["result"] = "skipped: " + err.Error()
+					return
+				}
+				args = append(args, "-overlay", file+"="+mf)
+			}
+			cmd := exec.Command(os.Args[0], args...)
+			outb, _ := cmd.CombinedOutput()
+			out := string(outb)
+			var alarms []string
+			for _, l := range strings.Split(out, "\n") {
+				l = strings.TrimSpace(l)
+				switch {
+				case strings.HasPrefix(l, "rule ") && strings.Contains(l, " at "):
+					k := l
+					if i := strings.Index(l, ": "); i > 0 {
+						k = l[i+2:]
+					}
+					if !baseKeys[k] {
+						alarms = append(alarms, l)
+					}
+				case strings.HasPrefix(l, "UNDECIDED") || strings.HasPrefix(l, "ERROR"):
+					alarms = append(alarms, l)
+				}
+			}
+			switch {
+			case strings.Contains(out, "NOT-ANALYSABLE"):
+				row["result"] = "skipped: refactoring does not type-check on this tree"
+			case len(alarms) == 0:
+				row["result"] = "silent"
+			default:
+				row["result"] = "FALSE ALARM: " + alarms[0]
+			}
+		}(i, c)
+	}
+	wg.Wait()
+	for _, r := range rows {
+		res.Rows = append(res.Rows, r)
+		if strings.HasPrefix(r["result"], "skipped") {
+			continue
+		}
+		res.Total++
+		if r["result"] == "silent" {
+			res.Killed++
+		} else {
+			res.Errors = append(res.Errors, fmt.Sprintf("SELFTEST-FAIL variant=%s: %s", r["variant"], r["result"]))
+		}
+	}
+	return res
+}
